@@ -343,6 +343,22 @@ def op_models(recs, rng, arg=3):
     return out + tail
 
 
+def op_models_tail(recs, rng, arg=2):
+    """MODEL blocks followed by atoms outside any model (a ligand after the last ENDMDL); the case selects the LAST model,
+    for which "the model the line belongs to" has only one reading"""
+    out = op_models(recs, rng, arg)
+    tail = [r for r in out if r['k'] == 'conect']
+    out = [r for r in out if r['k'] != 'conect']
+    at = _atoms(out)
+    n = max(r['id'] for r in at)
+    a = max(at, key=lambda r: r['x'])
+    for k, (nm, el) in enumerate([('C1', 'C'), ('O1', 'O'), ('C2', 'C')]):
+        out.append({'k': 'atom', 'het': True, 'id': n + 1 + k, 'name': nm, 'rawname': ' %-3s' % nm, 'altloc': '', 'resname': 'LIG',
+                    'chain': a['chain'], 'resid': 950, 'icode': '', 'x': a['x'] + 600 + 130 * k, 'y': a['y'] + 4000 * (int(arg) - 1),
+                    'z': a['z'], 'el': el})
+    return out + tail
+
+
 def _copy_chain(recs, rng, touch):
     """a second copy of all atoms after a TER with the SAME chain identifiers and residue numbers, far away or touching"""
     at = _atoms(recs)
@@ -590,7 +606,7 @@ def project_read(system, frecs, fmt, opts, nalt):
         mols.append(atoms)
         for u, v, ed in mol.edges(data=True):
             edges.append({'a': rec_of[u], 'b': rec_of[v], 'd2': conv_d2(ed['distance']) if 'distance' in ed else -1})
-    return {'mols': mols, 'edges': edges, 'nalt': nalt}
+    return {'mols': mols, 'edges': edges, 'nalt': nalt, 'err': False}
 
 
 def tla_file(frecs, fmt, opts):
@@ -741,12 +757,20 @@ def run_case(case, R):
         path = os.path.join(work, 'input.' + fmt)
         with open(path, 'w') as fh:
             fh.write(text)
+        system, exc = None, ''
         with capture() as warn:
-            system = st['m2'].read_system(Path(path), ignore_resnames=set(opts['exclude']), ignh=opts['ignh'],
-                                          modelidx=opts['model'] if fmt == 'pdb' else None)
+            try:
+                system = st['m2'].read_system(Path(path), ignore_resnames=set(opts['exclude']), ignh=opts['ignh'],
+                                              modelidx=opts['model'] if fmt == 'pdb' else None)
+            except Exception as err:        # noqa: the reader must not fail on a file the specification covers (TLC checks that)
+                exc = repr(err)[:300]
         nalt = warn.types.get('pdb-alternate', 0)
     finally:
         shutil.rmtree(work, ignore_errors=True)
+    if system is None:
+        ev = {'kind': 'real', 'hasfile': True, 'file': tla_file(frecs, fmt, opts), 'read': {'mols': [], 'edges': [], 'nalt': 0, 'err': True},
+              'sys': [], 'got': []}
+        return [{'event': ev, 'case': case, 'step': 0, 'exc': exc}]
     read = project_read(system, frecs, fmt, opts, nalt)
     ff = force_field(case['ff'])
     system.force_field = ff
@@ -805,6 +829,7 @@ def plan(tier, seed):
     q.append(_case('trpcage', ['altloc:4', 'restart'], mode='name', seed=seed + 2))
     q.append(_case('trpcage', ['ter_mid', 'conect_cross'], mode='distance', fudge=(9, 10), seed=seed + 3))
     q.append(_case('trpcage', ['models:3'], model=2, fudge=(13, 10), seed=seed + 4))
+    q.append(_case('villin', ['head:12', 'models_tail:2'], model=2, seed=seed + 11))   # no TER in front of ENDMDL
     q.append(_case('trpcage', ['twin_touch'], seed=seed + 5, history=['run', 'run']))
     q.append(_case('trpcage', ['restart_ter', 'twoletter'], ff='amber', seed=seed + 6))
     q.append(_case('trpcage', ['nohyd'], fmt='gro', seed=seed + 7))
@@ -834,13 +859,13 @@ def plan(tier, seed):
     # every text-level operation on several structures, random option vectors
     single = [['unkres:3'], ['unkel:5'], ['blankel'], ['twoletter'], ['altloc:6'], ['icode'], ['restart'], ['ter_mid'],
               ['restart_ter'], ['models:3'], ['twin_far'], ['twin_touch'], ['ligand'], ['conect_cross'], ['drop:10'], ['shuffle'],
-              ['nohyd'], ['ter_mid', 'conect_cross'], ['twin_touch', 'conect_cross'], ['altloc:5', 'icode', 'unkres:2'],
+              ['nohyd'], ['models_tail:2'], ['ter_mid', 'conect_cross'], ['twin_touch', 'conect_cross'], ['altloc:5', 'icode', 'unkres:2'],
               ['restart_ter', 'shuffle'], ['ligand', 'conect_cross', 'unkel:4'], ['twin_far', 'models:2']]
     for ops in single:
         for src in rng.sample(['dipro', 'sheet', 'trpcage', '3i40', 'villin', 'hst5', 'bpti', '1ubq', 'dna'], 4):
             kw = {}
             if 'models' in ''.join(ops):
-                kw['model'] = rng.choice([1, 2])
+                kw['model'] = 2 if 'models_tail:2' in ops else rng.choice([1, 2])
             if rng.random() < 0.2:
                 kw['ignh'] = True
             if rng.random() < 0.25:
@@ -895,7 +920,7 @@ def worker(args):
                'nrec': len(e['event']['file']['recs']) if e['event']['hasfile'] else 0,
                'nconect_links': len(e['event']['read']['edges']) if e['event']['hasfile'] else 0,
                'nread_mols': len(e['event']['read']['mols']) if e['event']['hasfile'] else 0}
-        if not ok:
+        if not ok and e['event']['got']:
             g_ = e['event']['got']
             run['got_summary'] = {'molecules': len(g_['mols']), 'bonds': len(g_['edges']), 'err': g_['err']}
         out['runs'].append(run)
